@@ -95,6 +95,8 @@ type caseGen struct {
 	codeSender *keyPair // signer whose account carries plain code
 	blockGasLeft uint64
 	recursers  []refevm.Address // contracts carrying the loop-free self-recursion probe
+	refunders  []refevm.Address // contracts carrying the SSTORE gas/refund probe
+	delegated  []refevm.Address // accounts carrying a delegation designator in the pre-state
 	steerEnv   *refevm.BlockEnv // incremental model run used for steering only
 	steerState refevm.State
 	steerCtx   *refevm.BlockCtx
@@ -153,7 +155,7 @@ func (g *caseGen) genAccounts() {
 	// have been deployed (EIP-3541); such an account is then only a call target, never a
 	// sender (go-ethereum accepts it as sender on every fork, EIP-3607 as written does not;
 	// the situation is unreachable on a real chain and is reported, not generated).
-	if g.ft.Delegated && rng.Intn(3) == 0 && g.codeSender == nil {
+	if g.ft.Delegated && (rng.Intn(3) == 0 || (g.fork >= refevm.Prague && rng.Intn(3) == 0)) && g.codeSender == nil {
 		k := g.eoas[rng.Intn(len(g.eoas))]
 		if g.fork < refevm.Prague {
 			k = g.eoas[len(g.eoas)-1]
@@ -175,6 +177,7 @@ func (g *caseGen) genAccounts() {
 			pre[k.Addr].Nonce = 1
 			g.nonce[k.Addr] = 1
 		}
+		g.delegated = append(g.delegated, k.Addr)
 		g.tag("pre-delegated")
 	}
 	// contracts
@@ -383,7 +386,21 @@ func (g *caseGen) genTxs() {
 		// destination and data
 		tx.To = g.target()
 		tx.Data = g.calldata()
-		if g.ft.CreateTxs && tx.Type <= 2 && rng.Intn(6) == 0 {
+		floorProbe := false
+		if g.fork >= refevm.Prague && ((len(g.refunders) > 0 && rng.Intn(2) == 0) || (tx.Type == 4 && rng.Intn(4) == 0)) {
+			// EIP-7623 floor against refunds: calldata-heavy transaction whose execution earns
+			// SSTORE-clearing / authorisation refunds (floor between used-before and used-after refund)
+			if len(g.refunders) > 0 {
+				a := g.refunders[rng.Intn(len(g.refunders))]
+				tx.To = &a
+			}
+			tx.Data = make([]byte, 100+rng.Intn(700))
+			for i := range tx.Data {
+				tx.Data[i] = byte(1 + rng.Intn(255))
+			}
+			g.tag("floor-vs-refund")
+			floorProbe = true
+		} else if g.ft.CreateTxs && tx.Type <= 2 && rng.Intn(6) == 0 {
 			tx.To = nil
 			tx.Data = g.initcode()
 			g.tag("create-tx")
@@ -437,7 +454,9 @@ func (g *caseGen) genTxs() {
 				g.tag("huge-gas")
 			}
 		}
-		if g.ft.GasBoundary && rng.Intn(10) == 0 {
+		if floorProbe {
+			g.tuneFloorProbe(tx)
+		} else if g.ft.GasBoundary && rng.Intn(10) == 0 {
 			g.gasBoundary(tx)
 		}
 		invalid := false
@@ -464,20 +483,8 @@ func (g *caseGen) genTxs() {
 // verdict never depends on this).
 func (g *caseGen) steer() {
 	defer func() { recover() }() // a model crash here only costs steering; judge() reports it
-	if g.steerEnv == nil {
-		be, ok := refevm.NewBlockEnv(g.fork, g.c.Env)
-		if !ok {
-			return
-		}
-		g.steerEnv, g.steerState = be, g.c.Pre.Copy()
-		g.steerCtx = &refevm.BlockCtx{GasLeft: g.c.Env.GasLimit}
-		if g.c.Env.ParentBeaconRoot != nil {
-			refevm.SystemCall(g.steerState, be, refevm.BeaconRootsAddress, g.c.Env.ParentBeaconRoot[:])
-		}
-		if g.fork >= refevm.Prague && g.c.Env.BlockHashes != nil {
-			ph := g.c.Env.BlockHashes[g.c.Env.Number-1]
-			refevm.SystemCall(g.steerState, be, refevm.HistoryAddress, ph[:])
-		}
+	if !g.ensureSteer() {
+		return
 	}
 	tx := g.c.Txs[len(g.c.Txs)-1].Tx
 	trial, tbc := g.steerState.Copy(), *g.steerCtx
@@ -490,6 +497,56 @@ func (g *caseGen) steer() {
 		}
 	}
 	g.blockGasLeft = g.steerCtx.GasLeft
+}
+
+// tuneFloorProbe sizes the (all non-zero) calldata of tx so that the EIP-7623 floor lies
+// between the gas used before and after the refund, using a trial run of the model.
+func (g *caseGen) tuneFloorProbe(tx *refevm.Tx) {
+	defer func() { recover() }()
+	if !g.ensureSteer() {
+		return
+	}
+	trial, tbc := g.steerState.Copy(), *g.steerCtx
+	r, _ := refevm.ApplyTx(trial, g.steerEnv, &tbc, tx, nil, nil)
+	if r.Rejected || r.Refund == 0 {
+		return
+	}
+	intr, _ := refevm.IntrinsicGas(g.fork, tx)
+	exec := tx.Gas - intr.Uint64() - r.GasLeftExec
+	if exec < r.Refund/2+24 {
+		return
+	}
+	n := int((exec - r.Refund/2) / 24)
+	if n < 1 || n > 6000 {
+		return
+	}
+	tx.Data = make([]byte, n)
+	for i := range tx.Data {
+		tx.Data[i] = byte(1 + g.rng.Intn(255))
+	}
+	_, floor := refevm.IntrinsicGas(g.fork, tx)
+	tx.Gas = floor.Uint64() + 200_000
+	g.tag("floor-vs-refund-tuned")
+}
+
+// ensureSteer prepares the incremental model run used for steering.
+func (g *caseGen) ensureSteer() bool {
+	if g.steerEnv == nil {
+		be, ok := refevm.NewBlockEnv(g.fork, g.c.Env)
+		if !ok {
+			return false
+		}
+		g.steerEnv, g.steerState = be, g.c.Pre.Copy()
+		g.steerCtx = &refevm.BlockCtx{GasLeft: g.c.Env.GasLimit}
+		if g.c.Env.ParentBeaconRoot != nil {
+			refevm.SystemCall(g.steerState, be, refevm.BeaconRootsAddress, g.c.Env.ParentBeaconRoot[:])
+		}
+		if g.fork >= refevm.Prague && g.c.Env.BlockHashes != nil {
+			ph := g.c.Env.BlockHashes[g.c.Env.Number-1]
+			refevm.SystemCall(g.steerState, be, refevm.HistoryAddress, ph[:])
+		}
+	}
+	return true
 }
 
 func (g *caseGen) calldata() []byte {
